@@ -24,3 +24,17 @@ Lemma tie_generated_safeput : forall (pre : list Z) (t : Bytes.bytes), GenCommon
   option_map (fun r => CGen.C_safeput.a_qqt__out (snd r)) (CGen.C_safeput.run (S (List.length t)) pre (GenCommon.zs t ++ [0%Z]) 0%Z)
   = Some (pre ++ GenCommon.zs (Smtpd.safe t)).
 Proof. exact Gen_names.gen_safeput_eq. Qed.
+(* getlen() of today's qmail-qmtpd.c (the netstring length every QMTP package starts with), translated to Gallina by
+   tools/c2gallina.py (gen/CGen.v, module C_getlen): same length and same number of bytes consumed as the model's getlen, the same
+   exits (resources -6: a length over 200000000; badproto -7; end of input -9) for every input stream *)
+From NQ Require Mem.Netstr Tie.Gen_getlen.
+Lemma tie_generated_getlen : forall s : Bytes.bytes, GenCommon.bytes_ok s -> (Z.of_nat (List.length s) < 2 ^ 31)%Z ->
+  match Netstr.getlen (Gen_getlen.chars s) with
+  | Netstr.GOk len rest =>
+      exists st, CGen.C_getlen.run (S (List.length s)) (GenCommon.zs s) 0%Z = Some (len, st) /\
+                 CGen.C_getlen.v_ssin__pos st = Z.of_nat (List.length s - List.length rest)
+  | Netstr.GResources => GenCommon.retval (CGen.C_getlen.run (S (List.length s)) (GenCommon.zs s) 0%Z) = Some (-6)%Z
+  | Netstr.GBadproto => GenCommon.retval (CGen.C_getlen.run (S (List.length s)) (GenCommon.zs s) 0%Z) = Some (-7)%Z
+  | Netstr.GEof => GenCommon.retval (CGen.C_getlen.run (S (List.length s)) (GenCommon.zs s) 0%Z) = Some (-9)%Z
+  end.
+Proof. exact Gen_getlen.gen_getlen_eq. Qed.
